@@ -30,7 +30,7 @@ namespace occa {
     modeDevice_t(const occa::json &json_);
 
     template <class modeType_t>
-    void freeRing(gc::ring_t<modeType_t> ring) {
+    void freeRing(gc::ring_t<modeType_t> &ring) {
       while (ring.head) {
         modeType_t *ptr = (modeType_t*) ring.head;
         ring.removeRef(ptr);
